@@ -6,6 +6,7 @@
 package vsync
 
 import (
+	"runtime"
 	"sync"
 	"unsafe"
 
@@ -49,6 +50,16 @@ func OnceValues[T1, T2 any](f func() (T1, T2)) func() (T1, T2) {
 	}
 }
 
+// wait makes waiting visible when no scheduler is attached: a lock that cannot be taken is polled, every poll
+// consumes fuel, so a lock that is never released ends in the harness's Hang verdict instead of blocking the
+// worker for ever (in the -race build fuel is disabled and this is an ordinary spin-wait).
+func wait(try func() bool) {
+	for !try() {
+		rt.Tick(0)
+		runtime.Gosched()
+	}
+}
+
 type Mutex struct {
 	real sync.Mutex
 	pad  byte // makes the zero-size case impossible: the address identifies the mutex
@@ -59,7 +70,7 @@ func (m *Mutex) Lock() {
 		s.MutexLock(uintptr(unsafe.Pointer(m)))
 		return
 	}
-	m.real.Lock()
+	wait(m.real.TryLock)
 }
 
 func (m *Mutex) Unlock() {
@@ -87,7 +98,7 @@ func (m *RWMutex) Lock() {
 		s.MutexLock(uintptr(unsafe.Pointer(m)))
 		return
 	}
-	m.real.Lock()
+	wait(m.real.TryLock)
 }
 
 func (m *RWMutex) Unlock() {
@@ -103,7 +114,7 @@ func (m *RWMutex) RLock() {
 		s.RLock(uintptr(unsafe.Pointer(m)))
 		return
 	}
-	m.real.RLock()
+	wait(m.real.TryRLock)
 }
 
 func (m *RWMutex) RUnlock() {
